@@ -1,4 +1,4 @@
-import PikaVerif.Lemmas.DequeTag
+import PikaVerif.Lemmas.DequeHarm
 /-!
 # C17 — concurrent queues return every element exactly once (lock-free deque, back-end adapters)
 
@@ -246,6 +246,88 @@ theorem C17_deque_witness_is_recycled_cas :
     obtain ⟨s, m⟩ := x
     have := hr s m hx
     simp [hx, this] at h
+
+/-! ## Follow-up C17s (1b): the weakest condition proved sufficient — no stale link CAS on a live link
+
+`stale = false` (equivalently: no CAS on a node freed under the snapshot) is sufficient but not
+necessary: random schedules of the real code do produce stale link CASes that succeed and do no
+harm.  `harmFreeB false (init n) log` (`Lemmas/DequeHarm.lean`, a decidable test run beside the
+acceptor) only forbids a stale link CAS that hits a **live** link: one of a chain node that is not
+the end node on that side, the already stored inward link of another push's private node, or the
+freelist's word of a free node.  Chain of implications, all proved:
+`NoRecycledCas` ⟹ `stale = false` ⟹ `harmFreeB`; the last one is strict (`harmlessStaleLog`). -/
+
+/-- **Exactly once, pinned tree, weakest proved condition.**  For every thread count and every
+    accepted log without a stale link CAS on a live link: conservation as a multiset, nothing popped
+    twice or invented, drained = pushed, distinct pushes give distinct pops, and the anchor and
+    links describe the chain. -/
+theorem C17_deque_conc_harmfree (n : Nat) (log : List Ev) (s : St)
+    (h : runLog step (init n) log = some s) (hf : harmFreeB false (init n) log = true) :
+    s.pushed.Perm (s.popped ++ contents s) ∧
+    (∀ v, s.popped.count v ≤ s.pushed.count v) ∧
+    (s.chain = [] → s.popped.Perm s.pushed) ∧
+    (s.pushed.Nodup → s.popped.Nodup) ∧
+    Glob s.anchor s.chain s.nodes s.used := by
+  have hi := inv_of_harmFree h hf
+  have hc := conc_of_inv hi
+  exact ⟨hc.1, hc.2.1, hc.2.2, fun hd => (List.nodup_append.1 (hi.cons.nodup_iff.1 hd)).1, hi.glob⟩
+
+/-- **Linearizability, pinned tree, weakest proved condition**: if the log extended by `e` has no
+    harmful link CAS, step `e` refines the list deque and a pop answers "empty" only when empty. -/
+theorem C17_deque_refines_list_harmfree (n : Nat) (log : List Ev) (s s' : St) (e : Ev)
+    (h : runLog step (init n) log = some s) (hstep : step s e = some s')
+    (hf : harmFreeB false (init n) log = true) :
+    Lin s s' ∧ (∀ t d a, e = .ld t a → s.pc t = .popLd d → s'.pc t = .retn false 0 → contents s = []) := by
+  have hi := inv_of_harmFree h hf
+  refine ⟨step_lin hi hstep, ?_⟩
+  intro t d a he hpc hret
+  subst he
+  exact pop_false_only_if_empty_G hi t a d hpc hstep hret
+
+/-- **The condition is weaker than `stale = false`** (hence than `NoRecycledCas`). -/
+theorem C17_deque_harmfree_of_not_stale (n : Nat) (log : List Ev) (s : St)
+    (h : runLog step (init n) log = some s) (hs : s.stale = false) :
+    harmFreeB false (init n) log = true :=
+  harmFree_of_stale_false h hs
+
+/-- **The finding violates exactly this condition**: the witness log fails the test, at the link
+    CAS of thread 0 (position 93): the anchor has changed, node 3 is in the chain `[3, 2]` and is
+    not its right end, so its `right` link is live. -/
+theorem C17_deque_witness_is_harmful :
+    harmFreeB false (init 2) abaLog = false ∧ harmFreeB false (init 2) (abaLog.take 93) = true ∧
+    (runLog step (init 2) (abaLog.take 93)).map
+      (fun s => (s.chain, s.anchor, harmStep s (.lcas 0 true))) = some ([3, 2], ⟨3, 2, 2, 14⟩, false) := by
+  refine ⟨by decide, by decide, by decide⟩
+
+/-- A **harmless stale link CAS with recycling** (non-vacuity and strictness): thread 0 is stopped
+    before the link CAS of its `push_right(3)` holding the snapshot `1->right = (null, 0)`; thread 1
+    finishes the stabilisation, pops 3 and 1 (both nodes go to the freelist), pushes 7 into the
+    re-allocated node 1; thread 0's CAS then succeeds on the recycled node (`stale`, and the
+    recycling monitor fires), but node 1 is the right end of the chain: nothing is lost. -/
+def harmlessStaleLog : List Ev :=
+  [.inv 1 true false 1, .alloc 1 1, .ld 1 ⟨0, 0, 0, 0⟩, .cas 1 true, .ret 1 true 0,
+   .inv 0 true true 3, .alloc 0 2, .ld 0 ⟨1, 1, 0, 1⟩, .link 0 2 1, .cas 0 true,
+   .rd 0 ⟨1, 0⟩, .chk 0 true, .rd 0 ⟨0, 0⟩, .chk 0 true,
+   .inv 1 false true 0, .ld 1 ⟨1, 2, 1, 2⟩, .rd 1 ⟨1, 0⟩, .chk 1 true, .rd 1 ⟨0, 0⟩, .chk 1 true,
+   .lcas 1 true, .cas 1 true, .ld 1 ⟨1, 2, 0, 3⟩, .chk 1 true, .rd 1 ⟨1, 0⟩, .cas 1 true,
+   .free 1 2, .ret 1 true 3,
+   .inv 1 false false 0, .ld 1 ⟨1, 1, 0, 4⟩, .cas 1 true, .free 1 1, .ret 1 true 1,
+   .inv 1 true false 7, .alloc 1 1, .ld 1 ⟨0, 0, 0, 5⟩, .cas 1 true, .ret 1 true 0,
+   .lcas 0 true, .cas 0 false, .ret 0 true 0,
+   .inv 1 false false 0, .ld 1 ⟨1, 1, 0, 6⟩, .cas 1 true, .free 1 1, .ret 1 true 7]
+
+example : (runLog (stepM false) (init 2, mon0) harmlessStaleLog).map
+      (fun x => (x.1.stale, x.2.aba, x.1.pushed, x.1.popped, x.1.chain)) =
+      some (true, true, [7, 3, 1], [7, 1, 3], []) ∧
+    harmFreeB false (init 2) harmlessStaleLog = true := by
+  refine ⟨by decide, by decide⟩
+
+/-- ordinary concurrent history with recycling that satisfies all three conditions: the helped
+    push / pop example below, and the witness of the defect cut before the fatal CAS (six pushes,
+    five pops, nodes 1-3 recycled several times, thread 0's snapshot node freed twice). -/
+example : (runLog (stepM false) (init 2, mon0) (abaLog.take 93)).map
+      (fun x => (x.1.stale, x.2.aba, x.1.pushed, x.1.popped, contents x.1)) =
+      some (false, false, [6, 5, 4, 3, 2, 1], [4, 3, 2, 1], [6, 5]) := by decide
 
 /-! ## Follow-up C17s (2): the repaired code (`fix:` commit on deque.hpp, model `stepF = stepG true`)
 
